@@ -814,3 +814,27 @@ theorem NoInj.combined (repl : Bool) (r : Rat) (zs : List (List (List Rat))) (p 
     NoInj.bind (NoInj.setData _) fun _ => NoInj.tryFinally (NoInj.sparsify repl p e ss) (NoInj.setData _)
 
 end FDA.Sim
+
+namespace FDA.Sim
+
+/-! ### monad laws of `M` (used to normalise the generated method bodies) -/
+
+theorem M_pure_bind (a : α) (f : α → M β) : (pure a >>= f) = f a := rfl
+
+theorem M_bind_pure (x : M α) : (x >>= fun a => pure a) = x := by
+  funext st
+  rcases bind_cases x (fun a => (pure a : M α)) st with ⟨a, st', h1, h2⟩ | ⟨e, st', h1, h2⟩
+  · rw [h2, h1]; rfl
+  · rw [h2, h1]
+
+theorem M_bind_assoc (x : M α) (f : α → M β) (g : β → M γ) :
+    ((x >>= f) >>= g) = (x >>= fun a => f a >>= g) := by
+  funext st
+  rcases bind_cases x f st with ⟨a, st', h1, h2⟩ | ⟨e, st', h1, h2⟩
+  · rw [bind_ok h1]
+    rcases bind_cases (f a) g st' with ⟨b, st'', h3, h4⟩ | ⟨e, st'', h3, h4⟩
+    · rw [bind_ok (x := x >>= f) (by rw [h2]; exact h3), h4]
+    · rw [bind_err (x := x >>= f) (by rw [h2]; exact h3), h4]
+  · rw [bind_err h1, bind_err (x := x >>= f) h2]
+
+end FDA.Sim
